@@ -13,7 +13,7 @@ RULE = ("real subprocesses. For each of the 7 documented tools x {python -m <too
         "backend generates: from <module> import <func>; sys.exit(<func>()))}: --help (status 0, usage text); for the archivers: no action, two different actions, an unknown "
         "option, a wrong archive extension (disk tools) -> non-zero status and no file created or modified (whole scratch tree compared before/after); for the text tools: an "
         "unknown option. For the archivers x {create, add, list, extract} x {with, without --into} x {first, repeated extraction}: outputs beside the archive by default, under "
-        "--into when given; a second extraction over the first succeeds and rewrites the files. Argument orders and option spellings (short/long, clustered) vary with the seed. "
+        "--into when given; a second extraction over the first succeeds and rewrites the files; create with and without source files, on a free path and over an older file. Argument orders and option spellings (short/long, clustered) vary with the seed. "
         "The argument-parsing decisions are also compared with the Coq model of the parsers (tables regenerated from the createArgParser calls). "
         "signature = (tool, launcher, scenario); non-trivial = every scenario but --help")
 ASSUMPTIONS = ["that the interpreter finds and starts a package, and what console-script generation does at install time, are not facts about a pure function: they are observed on real processes",
@@ -91,6 +91,10 @@ def gen_cases(rng, tier):
                     cases.append({"tool": tool, "launcher": la, "scenario": "create", "into": into, "verbose": rng.random() < 0.5, "sub": rng.choice(["arc/", "a.b/"])})
                     if tool != "moto_tar":
                         cases.append({"tool": tool, "launcher": la, "scenario": "add", "into": into, "verbose": False, "sub": rng.choice(["", "arc/"])})
+                # create without any source file (a blank archive), and create over something that already lies there
+                cases.append({"tool": tool, "launcher": la, "scenario": "create", "into": False, "verbose": rng.random() < 0.5, "sub": rng.choice(["", "arc/"]), "nsrc": 0})
+                cases.append({"tool": tool, "launcher": la, "scenario": "create", "into": False, "verbose": False, "sub": rng.choice(["", "arc/"]), "nsrc": 0, "old": True})
+                cases.append({"tool": tool, "launcher": la, "scenario": "create", "into": False, "verbose": False, "sub": "", "nsrc": 1, "old": True})
                 cases.append({"tool": tool, "launcher": la, "scenario": "list", "into": False, "verbose": rng.random() < 0.5, "sub": rng.choice(["", "arc/"])})
             else:
                 cases.append({"tool": tool, "launcher": la, "scenario": "run"})
@@ -268,15 +272,22 @@ def run_case(case, ctx):
             if sc == "create":
                 os.makedirs(os.path.join(root, sub), exist_ok=True)
                 open(os.path.join(root, "one.bas"), "wb").write(b"\xff\x00\x02\x00\x00")
-                before = snapshot(root)
-                st, out, err = launch(tool, la, ["-c"] + vf + into + [rel, "one.bas"], root)
-                after = snapshot(root)
-                new = sorted(k for k in after if k not in before)
                 want = [os.path.join("out dir", os.path.basename(rel))] if case.get("into") else [rel]
+                if case.get("old"):
+                    # something already lies where the archive goes: create replaces it (the manual: "if the archive file already exists, it is overwritten")
+                    os.makedirs(os.path.dirname(os.path.join(root, want[0])), exist_ok=True)
+                    open(os.path.join(root, want[0]), "wb").write(b"an older archive " * 9)
+                before = snapshot(root)
+                # the source files are optional in every synopsis: without any, create makes a blank archive
+                st, out, err = launch(tool, la, ["-c"] + vf + into + [rel] + (["one.bas"] if case.get("nsrc", 1) else []), root)
+                after = snapshot(root)
+                new = sorted(k for k in after if before.get(k) != after[k] and not k.endswith("/"))
                 if st != 0:
                     bad = {"create failed": [st, err[-300:]]}
-                elif [k for k in new if not k.endswith("/")] != want:
-                    bad = {"create wrote": new, "want": want, "into": bool(case.get("into"))}
+                elif new != want:
+                    bad = {"create wrote": new, "want": want, "into": bool(case.get("into")), "sources": case.get("nsrc", 1), "old": bool(case.get("old"))}
+                elif len(after[want[0]]) != {"moto_tar": 21504, "moto_sdar": 2621440, "moto_fdar": 1310720}[tool]:
+                    bad = {"created archive length": len(after[want[0]])}
             else:
                 try:
                     if case.get("link"):
@@ -349,7 +360,7 @@ def run_case(case, ctx):
                                 if again.get(os.path.normpath(p_)) != c_:
                                     bad = {"second extraction did not overwrite": os.path.normpath(p_), "len": [len(again.get(os.path.normpath(p_)) or b""), len(c_)]}
                                     break
-        sig = [tool, la, sc] + ([str(case.get("into"))] if "into" in case else []) + (["into:" + case["into_pos"]] if case.get("into_pos") else []) + (["ext:" + case["ext_spelling"]] if case.get("ext_spelling") else []) + (["link"] if case.get("link") else [])
+        sig = [tool, la, sc] + ([str(case.get("into"))] if "into" in case else []) + (["into:" + case["into_pos"]] if case.get("into_pos") else []) + (["ext:" + case["ext_spelling"]] if case.get("ext_spelling") else []) + (["link"] if case.get("link") else []) + (["no-source"] if case.get("nsrc") == 0 else []) + (["old"] if case.get("old") else [])
         skipped = dis == "unmodelled"
         if skipped:
             dis = None
